@@ -51,6 +51,16 @@ CHECKS = {
         "steps": [vc("c14", "maps", 30000, 1600000)],
         "assumptions": L1_ASSUME + ["the element types' own from_meta is the reference for entry values (differential)"],
     },
+    "C13": {
+        "packages": ["vchecks"],
+        "steps": [vc("c13", "fragments", 20000, 800000)],
+        "assumptions": L1_ASSUME + ["syn parsing the fragment directly as the target type is the reference (differential); token comparison ignores punct spacing and invisible groups"],
+    },
+    "C15": {
+        "packages": ["vchecks"],
+        "steps": [vc("c15", "lists", 40000, 1600000)],
+        "assumptions": L1_ASSUME + ["the documented default chain (from_meta -> from_word/from_list/from_expr -> from_value -> from_bool/from_string/from_char) is read off the FromMeta trait docs"],
+    },
     "C05": {
         "packages": ["vchecks"],
         "steps": [vc("c05", "histories", 40000, 1600000)],
